@@ -15,8 +15,8 @@ from sim import gen, kernel, model, world
 
 ID = 'C04'
 LEVEL = 'exploration'
-SWEEP = {'quick': 819 * 3, 'thorough': 7380 * 7}
-COUNT = {'quick': 819 * 3 + 900, 'thorough': 7380 * 7 + 20000}
+SWEEP = {'quick': 819 * 7, 'thorough': 7380 * 7}
+COUNT = {'quick': 819 * 7 + 900, 'thorough': 7380 * 7 + 20000}
 BUDGET_S = {'quick': 80, 'thorough': 840}
 DETERMINISM = {'quick': 16, 'thorough': 100}
 CHUNK = 16
@@ -120,12 +120,7 @@ def generate(rng, tier, index):
     if index < nsweep:
         per_type = 819 if tier == 'quick' else 7380
         tix, six = divmod(index, per_type)
-        if tier == 'quick':
-            # three of the seven types per seed, rotating with the seed
-            types = r.sample(gen.OTYPES, 3)
-            otype = types[tix]
-        else:
-            otype = gen.OTYPES[tix]
+        otype = gen.OTYPES[tix]
         seq = []
         n = six
         length = 1
